@@ -167,6 +167,10 @@ func IsBoundaryVal(a any) bool {
 	return ok
 }
 
+// IsStringVal / StringOf: a holds a Go string.
+func IsStringVal(a any) bool { _, ok := a.(string); return ok }
+func StringOf(a any) string  { s, _ := a.(string); return s }
+
 // NotTypedNil: a is not a typed-nil expression pointer.
 func NotTypedNil(a any) bool {
 	e, ok := a.(*expr.Expression)
@@ -230,4 +234,81 @@ func FoldStep(b Base, e *expr.Expression, s string, err error) bool {
 //@   ensures  in == nil ==> s == "" && err == nil
 //@   ensures[no-partial-sql] Builtin(b) && err != nil ==> s == ""
 //@   ensures[boundary-text] IsBoundaryVal(in) && err == nil ==> len(s) >= 4
+//@   loop 0: rangeinv true
+
+// ---- the parameterised renderer ---------------------------------------------------------------------
+
+// StrLeaf: e is a term holding the string v.
+func StrLeaf(a any, v string) bool {
+	e, ok := a.(*expr.Expression)
+	if !ok || e == nil || !expr.LeafOp(e.Op) || e.Right != nil {
+		return false
+	}
+	s, isStr := e.Left.(string)
+	return isStr && s == v
+}
+
+// IsStrLeaf / LeafString: a is a term holding a string.
+func IsStrLeaf(a any) bool {
+	e, ok := a.(*expr.Expression)
+	return ok && e != nil && expr.LeafOp(e.Op) && e.Right == nil && IsStringVal(e.Left)
+}
+func LeafString(a any) string {
+	e, _ := a.(*expr.Expression)
+	return StringOf(e.Left)
+}
+
+// OneStringParam: params is exactly [v].
+func OneStringParam(params []any, v string) bool {
+	if len(params) != 1 {
+		return false
+	}
+	s, ok := params[0].(string)
+	return ok && s == v
+}
+
+//@ func likeParam
+//@   props C04 C13 C01
+//@   functional
+//@   requires len(params) == 1 ==> IsStringVal(params[0])
+//@   ensures  result1 == nil
+
+//@ func rangParam
+//@   props C04 C13 C01
+//@   functional
+//@   requires len(right) >= 2
+//@   requires[params-nonempty] len(params) >= 1
+//@   ensures  result1 != nil ==> result0 == ""
+
+//@ func (Base).RenderParam
+//@   props C04 C10 C13 C15 C01
+//@   functional
+//@   structural
+//@   fuel 2 RenderOK=2
+//@   requires (e == nil || RenderOK(e)) && RangAt(b)
+//@   ensures  e == nil ==> s == "" && err == nil && len(params) == 0
+//@   ensures[no-partial-sql] Builtin(b) && err != nil ==> s == ""
+//@   ensures[string-leaf-is-one-param] err == nil && e != nil && expr.LeafOp(e.Op) && e.Right == nil && IsStringVal(e.Left) ==> OneStringParam(params, StringOf(e.Left))
+
+//@ func (Base).serializeBoundParam
+//@   props C04 C13 C01
+//@   functional
+//@   structural
+//@   rank 2
+//@   fuel 2 RenderOK=2
+//@   requires RenderOK(in) && RangAt(b)
+//@   ensures[no-partial-sql] Builtin(b) && err != nil ==> s == ""
+
+//@ func (Base).serializeParams
+//@   props C04 C10 C13 C15 C01 C08
+//@   functional
+//@   structural
+//@   rank 1
+//@   fuel 2 RenderOK=2
+//@   requires RenderOK(in) && RangAt(b)
+//@   ensures  in == nil ==> s == "" && err == nil && len(params) == 0
+//@   ensures[no-partial-sql] Builtin(b) && err != nil ==> s == ""
+//@   ensures[boundary-text] IsBoundaryVal(in) && err == nil ==> len(s) >= 4
+//@   ensures[string-is-param] IsStringVal(in) ==> err == nil && s == "?" && OneStringParam(params, StringOf(in))
+//@   ensures[string-leaf-is-one-param] err == nil && IsStrLeaf(in) ==> OneStringParam(params, LeafString(in))
 //@   loop 0: rangeinv true
